@@ -98,7 +98,7 @@ def sigHandle (op : String) (a r : Json) : Except String Reply := do
       | "remote-signed" => { isRemote := true, signWork := true, registered := true, verify := false }
       | "remote-unsigned" => { isRemote := true, signWork := false, registered := true, verify := false }
       | _ => { isRemote := false, signWork := false, registered := false, verify := false }
-    let found := wt != "unknown"
+    let found := wt == "verifying" || wt == "plain" || wt == "remote-signed" || wt == "remote-unsigned"
     let isRemote := wt == "remote-signed" || wt == "remote-unsigned"
     let obsOf (gateFirst : Bool) : Json :=
       let resp := dispatch gateFirst sub found t conn tok key
@@ -135,6 +135,35 @@ def sigHandle (op : String) (a r : Json) : Except String Reply := do
     pure { m := m, prop := some holds,
            why := if holds then "" else (if bypass then "a gated command took effect although the signature gate must refuse it"
                   else "outcome of the command differs from the specification (expected " ++ spec.compress ++ ")"),
+           sig := if holds then "" else (if bypass then "C15/effect-without-valid-token" else "C15/outcome-differs-from-spec") }
+  | "replay" =>
+    if let some e := optField r "err" then throw s!"harness error: {e.compress}"
+    let first := subOf (← getStr a "first")
+    let second := subOf (← getStr a "second")
+    let conn := if (← getStr a "conn") == "unix" then Conn.unix else Conn.other
+    let t : TypeCfg := { isRemote := false, signWork := false, registered := true, verify := true }
+    let o ← r.getObjVal? "ok"
+    let inTime := (getBool o "first_in_time").toOption.getD false
+    if !inTime then
+      pure { m := jObj [("unmodelled", Json.str "the harness was too slow: the token had expired before its first use")], prop := none, why := "", sig := "" }
+    else
+    let took (x : Json) : Bool := (do
+      pure ((← getBool x "created") || (← getBool x "removed") || (← getBool x "cancelled") || (← getBool x "read") || (← getBool x "started"))).toOption.getD false
+    let refusedInvalid (x : Json) : Bool := (getBool x "refused").toOption.getD false && (getStr x "why").toOption.getD "" == "invalid"
+    let f ← o.getObjVal? "first"
+    let s2 ← o.getObjVal? "second"
+    -- the model: the same gate, asked twice — with the verdict of the oracle at each moment
+    let d1 := dispatch gateFirstFact first true t conn { present := true, valid := true } true
+    let d2 := dispatch gateFirstFact second true t conn { present := true, valid := false } true
+    let obs := jObj [("first_effect", Json.bool (took f)), ("second_effect", Json.bool (took s2)), ("second_refused_invalid", Json.bool (refusedInvalid s2))]
+    let m := jObj [("first_effect", Json.bool (d1 == .effect)), ("second_effect", Json.bool (d2 == .effect)),
+                   ("second_refused_invalid", Json.bool (d2 == .refused .refuseInvalid))]
+    let spec := jObj [("first_effect", Json.bool true), ("second_effect", Json.bool false), ("second_refused_invalid", Json.bool true)]
+    let holds := canonEq obs spec
+    let bypass := took s2
+    pure { m := if canonEq obs m then r else m, prop := some holds,
+           why := if holds then "" else (if bypass then "a token that was valid when first used was accepted again after it had expired: the command took effect"
+                  else "the outcome of a command with a valid token, then of a command with the same token after its expiry, differs from the specification"),
            sig := if holds then "" else (if bypass then "C15/effect-without-valid-token" else "C15/outcome-differs-from-spec") }
   | _ => throw s!"bad-op sig {op}"
 
